@@ -563,6 +563,11 @@ func c01Undo(c *rep.Ctx) {
 	}
 }
 
+// c01GenesisCallers: the functions that may call ChainStateDB.SetGenesis, one line of reason each.
+var c01GenesisCallers = map[string]string{
+	"chain.(*Core).initGenesis": "node start on an empty chain DB (guarded by genesis-once in c01_gap.go)",
+}
+
 func c01Mint(c *rep.Ctx) {
 	p := c.Prog
 	f := c.Fn("state.(*ChainStateDB).SetGenesis")
@@ -579,7 +584,8 @@ func c01Mint(c *rep.Ctx) {
 		if c01OffNodePkg(cl) {
 			continue
 		}
-		if !strings.Contains(strings.ToLower(n), "genesis") && n != "chain.(*Core).initGenesis" {
+		// frozen table of callers (confirmed by reading), not a name pattern
+		if _, known := c01GenesisCallers[n]; !known {
 			ok = false
 		}
 	}
